@@ -15,7 +15,7 @@ RULE = ('Cases: an ancestor with substitution sites >= 2k apart and >= 2k from t
         'samples written in random orientation; the generator checks that every (k-1)-mer over the union of the sample sequences '
         'occurs at one locus on both strands and none is self-complementary.  Reference-free (k in {7,9,11,15,17,21,31,33}): the '
         'column multiset of <out>_snps.fas must equal the planted truth up to order and whole-column complement, names in input '
-        'order.  With -r (k>=15; reference = ancestor, its reverse complement, or one of the samples): every VCF record at a '
+        'order.  With -r (k>=15; reference = ancestor, its reverse complement, or one of the samples; a share with an N run away from the sites): every VCF record at a '
         'planted coordinate with the true alleles on the reference strand, REF = reference base, pseudo-genomes of reference '
         'length agreeing with every sample at every called position (how many planted sites are reported is recorded, not judged: the statement is about reported SNPs there).  Threads 1..8, with and without '
         'seeded jitter at the hook points, -m in {0.1,0.2,0.4}.  Well-formedness (equal lengths, >= 2 distinct A/C/G/T per column, '
@@ -24,7 +24,7 @@ RULE = ('Cases: an ancestor with substitution sites >= 2k apart and >= 2k from t
 ASSUMPTIONS = ['the planted truth is the oracle; well-formedness is a direct predicate on the output',
                'union-of-samples uniqueness (DESIGN.md section 8); sites at least 2k from the sequence ends']
 REQUIRED = {t: ['mode:free', 'mode:ref', 'mode:wf', 'ref:ancestor', 'ref:revcomp', 'ref:sample', 'threads>1', 'jitter_runs',
-                'sites_called', 'multiallelic_sites', 'wf_columns_checked', 'vcf_records_checked'] for t in ('quick', 'thorough')}
+                'sites_called', 'multiallelic_sites', 'wf_columns_checked', 'vcf_records_checked', 'reference_with_N'] for t in ('quick', 'thorough')}
 FREE_K = [7, 9, 11, 15, 17, 21, 31, 33]
 REF_K = [15, 17, 21, 31, 33]
 
@@ -124,6 +124,11 @@ def gen_clustered(rng, k):
     if rng.random() < 0.5:
         a = rng.randrange(len(anc) - 200)
         anc = anc + anc[a:a + rng.randint(40, 200)] + G.rseq(rng, 100)
+    if rng.random() < 0.4:
+        # a short segment present three times in the reference (positioning votes then have several losing offsets)
+        a = rng.randrange(len(anc) - 80)
+        seg = anc[a:a + rng.randint(k + 9, k + 40)]
+        anc = anc + G.rseq(rng, 60) + seg + G.rseq(rng, 60) + seg + G.rseq(rng, 60)
     ns = rng.randint(3, 8)
     vars_ = [mutate(rng, anc, 0.004) for _ in range(3)]
     return anc, [mutate(rng, rng.choice(vars_), 0.002) for _ in range(ns)]
@@ -203,6 +208,17 @@ def run_case(desc, ctx):
             refseq = M.rc(anc)
         else:
             refseq = ss[0]
+        if mode == 'ref' and rng.random() < 0.3:
+            # an N run in the reference, at least 2k away from every planted site: coordinates must not shift
+            L_ = len(refseq)
+            sites_ref = [(L_ - 1 - s_) if desc['refkind'] == 'revcomp' else s_ for s_ in truth]
+            for _try in range(20):
+                a_ = rng.randrange(L_)
+                n_ = rng.randint(1, 12)
+                if all(abs(x - q) > 2 * k for x in sites_ref for q in (a_, a_ + n_)) and a_ + n_ < L_:
+                    refseq = refseq[:a_] + 'N' * n_ + refseq[a_ + n_:]
+                    res.count('reference_with_N')
+                    break
         if mode == 'ref' or rng.random() < 0.5:
             ctx.write('ref.fa', '>R\n%s\n' % refseq)
             args += ['-r', ctx.path('ref.fa')]
